@@ -8,7 +8,7 @@ import math
 import numpy as np
 from fractions import Fraction as F
 
-from rv.core import instrument
+from rv.core import calling, instrument
 from rv.core import ctx as _ctx
 from rv.core.tolerances import ULP_BAND_REL
 from rv.gen import geoms
@@ -192,6 +192,9 @@ def judge_intervals(ctx, i1, i2, a, r):
         kw["min_relative_overlap"] = r
     st, v = _call(ctx, G.intervals_overlap, tuple(i1), tuple(i2), **kw)
     spec = {"kind": "intervals", "i1": list(i1), "i2": list(i2), "abs": a, "rel": r}
+    if ctx.every(spec, 3):
+        calling.agree(ctx, "intervals_overlap", instrument.original(G.intervals_overlap), dict(interval1=tuple(i1), interval2=tuple(i2), **kw), spec,
+                      same=lambda x, y: bool(x) == bool(y), variants={"numlike_thresholds": {k: calling.numlike(ctx.rng, v_) for k, v_ in kw.items()}} if kw else None)
     if ctx.every(spec, 4):
         # an interval is a pair: handed over as a list or an array it is the same interval
         stc, vc = _call(ctx, G.intervals_overlap, list(i1), np.array(i2, dtype=float), **kw)
@@ -257,6 +260,9 @@ def judge_in_clip(ctx, gspec, cs, ce, m):
     g = geoms.build(gspec) if ctx.evaluations % 4 else geoms.build_derived(gspec, ctx.rng)
     clip = _mk_clip(cs, ce)
     st, v = _call(ctx, G.is_in_clip, g, clip, m)
+    if ctx.every({"g": gspec, "c": [cs, ce], "m": m}, 3):
+        calling.agree(ctx, "is_in_clip", instrument.original(G.is_in_clip), dict(geometry=g, clip=clip, minimum_overlap=m), {"kind": "in_clip", "g": gspec, "clip": [cs, ce], "m": m},
+                      same=lambda x, y: bool(x) == bool(y), variants={"numlike_minimum": {"minimum_overlap": calling.numlike(ctx.rng, m)}})
     if m >= 0 and ctx.evaluations % 3 == 0:
         geoms.edit_in_place(g, ctx.rng)
         _call(ctx, G.is_in_clip, g, clip, m)
@@ -283,6 +289,12 @@ def judge_geoms(ctx, axis, s1, s2, a, r):
         kw["min_relative_overlap"] = r
     st, v = _call(ctx, fn, g1, g2, **kw)
     st2, v2 = _call(ctx, fn, g2, g1, **kw)
+    if ctx.every({"g1": s1, "g2": s2, "a": a, "r": r, "axis": axis}, 3):
+        # the same question asked positionally in the documented order, and with numpy / int thresholds
+        name = "have_temporal_overlap" if axis == "temporal" else "have_frequency_overlap"
+        full = dict(geom1=g1, geom2=g2, **kw)
+        calling.agree(ctx, name, instrument.original(fn), full, {"kind": axis, "g1": s1, "g2": s2, "abs": a, "rel": r}, same=lambda x, y: bool(x) == bool(y),
+                      variants={"numlike_thresholds": {k: calling.numlike(ctx.rng, v_) for k, v_ in kw.items()}} if kw else None)
     if ctx.evaluations % 3 == 0:
         # one of the two geometries is dragged somewhere else in place; the predicate is asked again
         geoms.edit_in_place(g1, ctx.rng)
